@@ -1,6 +1,10 @@
 package verifsim
 
-import "fmt"
+import (
+	"fmt"
+
+	"github.com/nspcc-dev/dbft"
+)
 
 // acceptRec is the harness record of one block handed to the application.
 type acceptRec struct {
@@ -35,6 +39,12 @@ func (o *OracleC02) matchesProposal(n *Node, h *Header) (bool, string) {
 	prim := primaryOf(d.BlockIndex, d.ViewNumber, len(o.s.sc.ValsAt(d.BlockIndex)))
 	if len(props) == 0 {
 		return false, "no proposal for this view was ever delivered to or broadcast by the node"
+	}
+	// the proposal of the view is the one the node itself holds in the primary's slot; the
+	// harness record of delivered proposals is only the fall-back (a primary that recovered its
+	// own request keeps it elsewhere, a watch-only node may have been given several)
+	if held, ok := d.PreparationPayloads[d.PrimaryIndex].(*Payload); ok && held != nil && held.T == dbft.PrepareRequestType && held.V == d.ViewNumber {
+		props = []*Payload{held}
 	}
 	for _, p := range props {
 		if int(p.Idx) != prim {
